@@ -45,7 +45,7 @@ class ListOracle:
         elif o[0] == "GroupLayers" and o[1]:
             tgt = o[2] if o[2] is not None else (fp if isinstance(fp, int) and fp >= 0 else None)
             args = list(o[1])
-        if tgt is not None and kinds[tgt] != ec.KPIXEL:
+        if tgt is not None and 0 <= tgt < len(kinds) and all(0 <= x < len(kinds) for x in args) and kinds[tgt] != ec.KPIXEL:
             L = w.adjacency()
             for x in args:
                 xo = w.objs[x]
@@ -234,6 +234,12 @@ def _work(case):
     return ec.case_digest(ds), fails, stats, not orc.flags
 
 
+def _work_err(case, msg):
+    inp = {"scene": case[0], "history": [list(o) for o in case[1]], "step": len(case[1]) - 1, "op": list(case[1][-1]) if case[1] else [],
+           "outcome": None, "flags": [], "step_flags": []}
+    return [0], [("driver-exception", inp, msg, "the operation sequence runs")], {}, False
+
+
 def _pwork(desc):
     fails = []
     persistence_case(lambda kind, inp, obs, exp: fails.append((kind, inp, obs, exp)), desc)
@@ -257,7 +263,7 @@ def gen_cases(ck):
             for o2 in ec.ops_for(k2, FAM, pos=pos2, offs=(-2, -1, 1, 2), pairs=False):
                 cases.append((k, [o, o2]))
     n2 = len(cases) - n1
-    n3 = 60000 if thorough else 10000
+    n3 = 150000 if thorough else 20000
     for _ in range(n3):
         k = rng.choice([0, 1, 3, 3, 4, 5, 2, 6])
         kinds = ec.kinds_after(ec.SCENES[k])
@@ -267,7 +273,7 @@ def gen_cases(ck):
             ops.append(o)
             kinds = ec.kinds_after([o], kinds)
         cases.append((k, ops))
-    nw = 4000 if thorough else 800
+    nw = 12000 if thorough else 1500
     for j in range(nw):
         k = rng.randrange(8)
         cases.append(ec.random_walk(rng, k, rng.choice([8, 20, 40, 60]), FAM_WALK, guarded=ec.structure_guard if j % 3 else None))
@@ -317,7 +323,7 @@ def run():
     cases, sizes = gen_cases(ck)
     for k, v in sizes.items():
         ck.count("cases:" + k, v)
-    res = ec.parallel_map(_work, cases)
+    res = ec.parallel_map(ec.Guarded(_work, _work_err), cases)
     cc = []
     nguard = 0
     for c, (dg, fails, stats, guarded) in zip(cases, res):
